@@ -10,7 +10,7 @@ CONFIG = {
         "permission check (caller SYSOP sees every board: C07), user lookup, shared-memory attachment, base64/strings.Split of the by-class cursor, cache.GetBTotalWithRetry in front of / behind the listing loops: exercised, not modelled beyond the cursor round-trip",
         "types.Cstrcmp / Cstrcasecmp / CstrCaseHasPrefix: modelled and proved equal to strcmp/strcasecmp in property C18 (Model/C18.lean, Proofs/C18.lean), imported",
     ],
-    "modelled": ["cache.ReloadBCache / reloadBCacheCore / SortBCache (busy-flag protocol of a single loader)", "cache.GetBid", "cache.getBidByNameCore", "cache.getBidByClassCore", "cache.FindBoardIdxByName", "cache.FindBoardIdxByClass",
+    "modelled": ["cache.ReloadBCache / reloadBCacheCore / SortBCache (busy-flag protocol of a single loader; clamp of an oversized .BRD to MAX_BOARD)", "cache.GetBid", "cache.getBidByNameCore", "cache.getBidByClassCore", "cache.FindBoardIdxByName", "cache.FindBoardIdxByClass",
                  "cache.cmpBoardByClass", "cache.FindBoardAutoCompleteStartIdx", "cache.findBoardClosetKeyword", "ptttype.BoardTitle_t.BoardClass",
                  "ptttype.Bid.IsValid", "ptt.LoadGeneralBoards", "ptt.LoadAutoCompleteBoards", "ptt.loadGeneralBoardStat / loadAutoCompleteBoardStat (vacated / group / prefix tests)",
                  "bbs.LoadGeneralBoards", "bbs.LoadAutoCompleteBoards", "ptt.LoadGeneralBoardDetails", "bbs.LoadGeneralBoardDetails", "ptt.LoadFullClassBoards", "bbs.LoadFullClassBoards (next_bid)",
